@@ -342,34 +342,41 @@ PLUMBING = {
 }
 
 
+def check_lift_plumbing(R, repo, name, callee, opts, alias=None):
+  """nn.<name>(…) forwards each option unchanged (by keyword, or positionally after `target`) to lift.<callee>."""
+  alias = dict({'trans_in_fn': 'map_in_fn', 'trans_out_fn': 'map_out_fn'}, **(alias or {}))
+  tr, li = repo.mod(TR), repo.mod(LI)
+  f = tr.func(name)
+  ps = set(astu.params(f.node))
+  sub = ast.Module(body=[f.node], type_ignores=[])
+  calls = [x for x in ast.walk(sub) if isinstance(x, ast.Call) and (callee in [astu.src(a) for a in x.args[:1]] or astu.call_name(x) == callee)]
+  R.require(calls, 'nn.%s: use of %s not found' % (name, callee))
+  call = calls[0]
+  lf = li.func(callee.split('.')[1])
+  lps = set(astu.params(lf.node))
+  lpos = astu.pos_params(lf.node)
+  missing = []
+  for o in opts:
+    if o not in ps:
+      missing.append(o + ' (not a parameter of nn.%s)' % name)
+      continue
+    a = alias.get(o, o)
+    v = astu.kwarg(call, o)
+    v = v if v is not None else astu.kwarg(call, a)
+    if v is None and a in lpos:
+      i = lpos.index(a) + 1   # lift_transform(lift.f, target, a1, …) -> lift.f(fn, a1, …)
+      if i < len(call.args) and not any(isinstance(x, ast.Starred) for x in call.args[:i + 1]):
+        v = call.args[i]
+    if not (isinstance(v, ast.Name) and v.id == o) or a not in lps:
+      missing.append(o)
+  R.check(not missing, key_of(f, 'forwards %s' % ', '.join(opts)), (f, call), 'nn.%s does not forward %s unchanged to %s (or the callee has no such parameter)' % (name, missing, callee))
+
+
 @rule('C05.R8', 'K6', 6, 'options of nn.jit / checkpoint / map_variables / cond / switch / while_loop reach the lifted core and jax unchanged')
 def r8(R, repo):
   tr, li = repo.mod(TR), repo.mod(LI)
   for name, (callee, opts) in PLUMBING.items():
-    f = tr.func(name)
-    ps = set(astu.params(f.node))
-    sub = ast.Module(body=[f.node], type_ignores=[])
-    calls = [x for x in ast.walk(sub) if isinstance(x, ast.Call) and (callee in [astu.src(a) for a in x.args[:1]] or astu.call_name(x) == callee)]
-    R.require(calls, 'nn.%s: use of %s not found' % (name, callee))
-    call = calls[0]
-    lf = li.func(callee.split('.')[1])
-    lps = set(astu.params(lf.node))
-    missing = []
-    lpos = astu.pos_params(lf.node)
-    for o in opts:
-      if o not in ps:
-        continue
-      v = astu.kwarg(call, o)
-      alias = {'trans_in_fn': 'map_in_fn', 'trans_out_fn': 'map_out_fn'}.get(o, o)
-      v = v if v is not None else astu.kwarg(call, alias)
-      if v is None and alias in lpos:
-        # positional: lift_transform(lift.f, target, a1, a2, ...) -> lift.f(fn, a1, a2, ...)
-        i = lpos.index(alias) + 1
-        if i < len(call.args) and not any(isinstance(a, ast.Starred) for a in call.args[:i + 1]):
-          v = call.args[i]
-      if not (isinstance(v, ast.Name) and v.id == o) or alias not in lps:
-        missing.append(o)
-    R.check(not missing, key_of(f, 'forwards %s' % ', '.join(o for o in opts if o in ps)), (f, call), 'nn.%s does not forward %s unchanged to %s (or the callee has no such parameter)' % (name, missing, callee))
+    check_lift_plumbing(R, repo, name, callee, opts)
   ck = li.func('checkpoint.inner')
   deco = [d for d in li.func('checkpoint.inner.rematted').node.decorator_list if 'jax.remat' in astu.src(d)]
   ok = len(deco) == 1 and all(k in astu.src(deco[0]) for k in ('concrete=concrete', 'prevent_cse=prevent_cse', 'policy=policy', 'static_argnums=static_argnums_')) and 'lambda x: x + 2' in astu.src(ck.node)
